@@ -1,4 +1,6 @@
 """C09 — overlap_add.list and the stft wrapper.  Tie: small exhaustive grid + random + malformed stream
++ window OBJECTS of every kind the model knows (the resolution rule "callable and not a Stream => wnd(size)" is
+the Lean model's, the tie only builds real objects) + call shapes / spellings / the default strategy
 + histories (several calls sharing argument objects: no argument is modified, no state between calls).
 
 Only `overlap_add.list` can be tied: `overlap_add.numpy` (the default strategy) needs numpy, which the
@@ -10,7 +12,17 @@ from fractions import Fraction as F
 
 ID = "C09"
 RULE = ("grid (size<=6 x hop<=size x m<=4 x normalise x window kind) + random (size<=8, m<=5, four window "
-        "kinds + tuple/Stream/empty, int/Fraction/float samples) + malformed stream (wrong block or window "
+        "kinds + tuple/Stream/empty, int/Fraction/float samples) + window objects (22 kinds of REAL Python objects: list, tuple, "
+        "generator, list iterator, range, deque, dict, user class with __iter__ only; Stream, thub, Stream subclass; def function, "
+        "lambda, functools.partial, bound method, class used as factory, StrategyDict strategy (own and window.hann/hamming/...), user "
+        "class with __call__ only; the StrategyDict objects `window` / `wsymm` themselves and an own StrategyDict, user class with "
+        "__call__ AND __iter__ (iteration gives other numbers or parameter tuples), list subclass with __call__; a number; the call "
+        "returning list / tuple / generator / Stream / deque / None / a number, of the right or a wrong length, from a table by size) as "
+        "wnd of overlap_add.list and as wnd / ola_wnd of the stft wrapper in its three calling styles; call shapes of overlap_add.list "
+        "(keywords, all positional, size/hop positional + keywords, omitted = defaults), normalize spelled True/1/2/Fraction/float/str/"
+        "list and False/0/None/0.0/''/[] , blocks as lists / iterator / Stream / tuples / deques / generators, the default and numpy "
+        "strategies (numpy absent: ImportError first); ola_size / ola_hop / ola_wnd / ola_normalize given or left to their defaults, "
+        "ola_ option names starting with o, l, a, _ after the prefix + malformed stream (wrong block or window "
         "length, non-iterable window, hop>size, hop=0, size detection on no block) + histories (1-6 calls of "
         "overlap_add.list / the stft wrapper sharing argument objects: one window list / tuple, one memoised window "
         "callable returning the same list object, one list of block objects, one signal list, one kwargs dict, one "
@@ -21,6 +33,13 @@ RULE = ("grid (size<=6 x hop<=size x m<=4 x normalise x window kind) + random (s
         "non-trivial = no error, at least one block and one output sample (history: one call with output and one "
         "object used twice); distinct = distinct JSON case")
 TRUSTED = [
+    "window objects: the harness builds a real Python object from (kind, what the call returns by size, what iteration gives) "
+    "(harness/props/c09.py:_build_wobj) and sends exactly that description to the driver; whether the object is called or iterated is "
+    "decided by ALV.C09.callStep from ALV.C09.WKind.caps, and that table is compared with callable() / isinstance(., Iterable) / "
+    "isinstance(., Stream) of the real objects on every run (extra_checks window-kind-table-*); trusted: that _build_wobj builds "
+    "an object that behaves as described (its __call__ returns the table row, its __iter__ the data)",
+    "window objects whose ITERATION gives things that are not numbers and that are not callable (a list of strings, a dict of "
+    "tuples) are modelled as the error window-items but never drawn (the precise exception depends on the first arithmetic)",
     "the Lean model / spec is a pure function of the request of one call: `ALV.Driver.C09.handle \"hist\"` answers every call "
     "of a history by `handleCall` on that call's own request, so 'the result depends only on the call's own argument values' "
     "holds for the model by construction (nothing to prove); that the REAL code has no state between calls and leaves its "
@@ -47,7 +66,10 @@ MANIFEST = {
             "slice-assignment loop, flush, size checks) and of the stft wrapper (keyword merge and routing, blk_gen, run), for all "
             "block counts / sizes / hops / windows / keyword dictionaries; tied to /repo by a differential run (impl vs model vs spec) "
             "on every check",
-    "note": "overlap_add.numpy cannot be run here (no numpy) and is not tied; Python slice assignment, map() consumption and the "
+    "note": "the window argument is a Python OBJECT in the model (callable / iterable / Stream predicates, call result, iteration "
+            "result; 22 kinds, table checked against real objects) and the binding of ola_params to the strategy's signature with its "
+            "defaults is a model function with theorems; overlap_add.numpy cannot be run here (no numpy) and is tied only as far as "
+            "'imports numpy first'; Python slice assignment, map() consumption and the "
             "generator protocol are modelled, not verified; floats injected by the impl (mem=[0.]*size, 1/ceil) are compared exactly "
             "on dyadic inputs and with relative tolerance 1e-9 otherwise; known defect D7 recorded in known_findings/C09.json",
     "technique": "Lean 4 machine-checked proof over an executable model + differential correspondence with spies in three calling styles "
